@@ -6,7 +6,7 @@ import Amoco.Model.SemDsl
 namespace Generated.Rv
 open Amoco.Rv
 
-/-- from amoco/arch/riscv/rv32i/asm.py (sha256 64f333c1b9f67b51) -/
+/-- from amoco/arch/riscv/rv32i/asm.py (sha256 3ca76cc1ca2e0d16) -/
 def rv32_tab : List (Mn × Sem) := [
   (.LUI, [(.assign .pc (.bin .add .pc .ilen)), (.guardNZ 0 (.assign (.opnd 0) (.opnd 1)))]),
   (.AUIPC, [(.guardNZ 0 (.assign (.opnd 0) (.bin .add .pc (.opnd 1)))), (.assign .pc (.bin .add .pc .ilen))]),
@@ -34,7 +34,7 @@ def rv32_tab : List (Mn × Sem) := [
   (.ANDI, [(.assign .pc (.bin .add .pc .ilen)), (.guardNZ 0 (.assign (.opnd 0) (.bin .and (.opnd 1) (.opnd 2))))]),
   (.SLLI, [(.assign .pc (.bin .add .pc .ilen)), (.guardNZ 0 (.assign (.opnd 0) (.bin .shl (.unsigned (.opnd 1)) (.unsigned (.opnd 2)))))]),
   (.SRLI, [(.assign .pc (.bin .add .pc .ilen)), (.guardNZ 0 (.assign (.opnd 0) (.bin .shr (.unsigned (.opnd 1)) (.unsigned (.opnd 2)))))]),
-  (.SRAI, [(.assign .pc (.bin .add .pc .ilen)), (.guardNZ 0 (.assign (.opnd 0) (.bin .sar (.opnd 1) (.opnd 2))))]),
+  (.SRAI, [(.assign .pc (.bin .add .pc .ilen)), (.guardNZ 0 (.assign (.opnd 0) (.bin .shr (.opnd 1) (.opnd 2))))]),
   (.ADD, [(.assign .pc (.bin .add .pc .ilen)), (.guardNZ 0 (.assign (.opnd 0) (.bin .add (.opnd 1) (.opnd 2))))]),
   (.SUB, [(.assign .pc (.bin .add .pc .ilen)), (.guardNZ 0 (.assign (.opnd 0) (.bin .sub (.opnd 1) (.opnd 2))))]),
   (.SLL, [(.assign .pc (.bin .add .pc .ilen)), (.guardNZ 0 (.assign (.opnd 0) (.bin .shl (.unsigned (.opnd 1)) (.bin .and (.unsigned (.opnd 2)) (.int 31)))))]),
